@@ -113,6 +113,10 @@ Proof.
   intros emitted H g. pose proof (filter_length_le (fun x : N * seg_in => fst x =? g) emitted). unfold lenN in *. lia.
 Qed.
 
+Lemma per_group_le_total : forall (emitted : list (N * seg_in)) g,
+  lenN (filter (fun x => fst x =? g) emitted) <= lenN emitted.
+Proof. intros emitted g. pose proof (filter_length_le (fun x : N * seg_in => fst x =? g) emitted). unfold lenN. lia. Qed.
+
 (* ---- the number of pieces is bounded by the input size: at most one raw segment per symbol plus the final one,
    at most two pieces per raw segment *)
 Lemma seg_final_count ws contig a f fd : (length (seg_final ws contig a f fd) <= 1)%nat.
